@@ -854,9 +854,9 @@ def build_work(tier, seed):
     if quick:
         rng.shuffle(fs); rng.shuffle(fp); rng.shuffle(ff)
         fs, fp, ff = fs[:200], fp[:420], ff[:96]
-    cap, nrand = (10, 6) if quick else (40, 20)
-    rcap, rrand = (8, 6) if quick else (30, 20)
-    nprog = 900 if quick else 5000
+    cap, nrand = (10, 6) if quick else (80, 40)
+    rcap, rrand = (8, 6) if quick else (50, 30)
+    nprog = 900 if quick else 8000
     work = [(p, cap, nrand) for p in fs + fp + ff] + [(gen_random(rng), rcap, rrand) for _ in range(nprog)]
     rng.shuffle(work)  # so that a time cut-off keeps a bit of everything
     return work
